@@ -225,3 +225,14 @@ Lemma w_exact_completion :
   map (fun ks => s_status (snd ks)) (d_svcs (state_after w_exact_ifs w_exact_its 5)) = [[(2, SAnnounced)]] /\
   queue_times (state_after w_exact_ifs w_exact_its 5) = [1001895].
 Proof. repeat split; vm_compute; reflexivity. Qed.
+
+(* ---- round 9: w_exact as an instance of the liveness theorem ---------------------------------------------------
+   the registration at t0 (jitter 145) leaves both probes in their initial state with T = t0 + 145; the
+   iterations come at T, T + 250, T + 500, T + 750 (never late); after the one at T + 750 the service
+   is Announced *)
+Lemma w_exact_liveness_shape :
+  map (fun kr => map (fun np => (pb_start (snd np), pb_next (snd np))) (rg_probing (snd kr))) (d_regs (state_after w_exact_ifs w_exact_its 1))
+  = [[(1000145, 1000145); (1000145, 1000145)]] /\
+  map it_now (firstn 5 w_exact_its) = [1000000; 1000145; 1000395; 1000645; 1000895] /\
+  map (fun ks => s_status (snd ks)) (d_svcs (state_after w_exact_ifs w_exact_its 5)) = [[(2, SAnnounced)]].
+Proof. repeat split; vm_compute; reflexivity. Qed.
